@@ -33,10 +33,12 @@ type famStats struct {
 	cases    *vk.Set          // distinct (scenario, capacity-independent pool content, added tx, result) of the overlap families
 	shapes   *vk.Set          // distinct shapes of successful overlapping additions
 	rebuilds vk.Counter
+	fpbCases *vk.Set // fpb families: distinct (capacity, full pool content, newcomer, result)
+	listings *vk.Set // fpb families: distinct listings in which the newcomer's position was decided (fpb_test.go)
 }
 
 func newFamStats() *famStats {
-	return &famStats{n: map[string]int64{}, cases: vk.NewSet(), shapes: vk.NewSet()}
+	return &famStats{n: map[string]int64{}, cases: vk.NewSet(), shapes: vk.NewSet(), listings: vk.NewSet(), fpbCases: vk.NewSet()}
 }
 
 func (f *famStats) inc(names ...string) {
@@ -98,11 +100,40 @@ func (f *famStats) add(sc *scenario, capacity int, before []int, ti int, res, cl
 func (f *famStats) export(cov map[string]any) {
 	f.mu.Lock()
 	defer f.mu.Unlock()
-	mc := map[string]int64{}
+	mc, fc := map[string]int64{}, map[string]int64{}
 	for k, v := range f.n {
-		mc[k] = v
+		if strings.HasPrefix(k, "fpb:") {
+			fc[k] = v
+		} else {
+			mc[k] = v
+		}
 	}
 	cov["transition_model_counters"] = mc
+	cov["fpb_family_counters"] = fc
+	// scalars (the merged evidence keeps only those): transitions DECIDED by a pair of each boundary class
+	for name, sub := range map[string]string{
+		"fpb_decided_by_equal_floor_ratio_opposing_net": "floor-eq/ratio-opposes-net",
+		"fpb_decided_by_equal_floor_equal_ratio":        "floor-eq/ratio-eq/net-differs",
+		"fpb_decided_by_equal_floor_same_size":          "floor-eq/same-size",
+		"fpb_decided_by_floor_differing_by_1_vs_net":    "floor-differs-by-1/net-opposes",
+		"fpb_decided_by_difference_of_2^31_or_more":     "floor-differs-by>=2^31",
+	} {
+		var full, ins int64
+		for k, v := range fc {
+			if strings.Contains(k, sub) {
+				if strings.HasPrefix(k, "fpb:add-to-full-pool:") {
+					full += v
+				} else {
+					ins += v
+				}
+			}
+		}
+		cov[name+"_adds_to_full_pool"] = int(full)
+		cov[name+"_insert_positions"] = int(ins)
+	}
+	cov["fpb_adds"] = int(fc["fpb:adds"])
+	cov["fpb_distinct_adds_to_full_pool"] = f.fpbCases.Len()
+	cov["fpb_distinct_decided_listings"] = f.listings.Len()
 	cov["overlap_distinct_cases"] = f.cases.Len()
 	cov["overlap_distinct_removal_shapes"] = f.shapes.Len()
 	cov["same_content_fresh_pool_comparisons"] = int(f.rebuilds.Get())
